@@ -45,26 +45,30 @@ pub fn wrap(layers: &[LayerF], leaf: Arc<dyn Kinematics>) -> Arc<dyn Kinematics>
     cur
 }
 
-fn leaf_for(p: Parameters, limits: &Option<(Joints, Joints, f64)>) -> Arc<dyn Kinematics> {
+fn leaf_for(p: Parameters, limits: &Option<(Joints, Joints, f64)>) -> Arc<dyn Kinematics> { Arc::new(leaf_val(p, limits)) }
+
+fn leaf_val(p: Parameters, limits: &Option<(Joints, Joints, f64)>) -> OPWKinematics {
         match limits {
             // one constrained robot in eight comes out of the URDF route: URDFParameters { .. }.to_robot(weight, offsets)
             Some((f, t, w)) if (f[1].to_bits() >> 5) & 7 == 3 => {
                 let u = rs_opw_kinematics::urdf::URDFParameters { a1: p.a1, a2: p.a2, b: p.b, c1: p.c1, c2: p.c2, c3: p.c3, c4: p.c4,
                     sign_corrections: p.sign_corrections, from: *f, to: *t, dof: p.dof };
-                Arc::new(u.to_robot(*w, &p.offsets))
+                u.to_robot(*w, &p.offsets)
             }
             // one in eight has its limits written in degrees
             Some((f, t, w)) if (f[1].to_bits() >> 5) & 7 == 5 => {
                 let c = Constraints::from_degrees(std::array::from_fn(|i| f[i].to_degrees()..=t[i].to_degrees()), *w);
-                Arc::new(OPWKinematics::new_with_constraints(p, c))
+                OPWKinematics::new_with_constraints(p, c)
             }
             Some((f, t, w)) => {
                 // every second constrained robot obtains its limits through update_range from unrelated ones
                 // (the unrelated ones are narrow or permissive, so that stale state of either kind would show)
                 let c = match (f[0].to_bits() >> 3) & 3 {
-                    0 | 1 => Constraints::new(*f, *t, *w),
+                    0 => Constraints::new(*f, *t, *w),
+                    // (the sorting weight is a public field: constructed with another weight, then assigned)
+                    1 => { let mut c = Constraints::new(*f, *t, [0.0, 1.0, 0.5][(f[2].to_bits() >> 7) as usize % 3]); c.sorting_weight = *w; c }
                     2 => {
-                        let mut c = Constraints::new([0.3, -2.0, 1.0, 2.9, -0.2, 0.0], [0.9, -1.0, 1.1, 3.3, 0.2, 0.0], *w);
+                        let mut c = Constraints::new([0.3, -2.0, 1.0, 2.9, -0.2, -0.4], [0.9, -1.0, 1.1, 3.3, 0.2, 0.1], *w);
                         c.update_range(*f, *t);
                         c
                     }
@@ -74,9 +78,9 @@ fn leaf_for(p: Parameters, limits: &Option<(Joints, Joints, f64)>) -> Arc<dyn Ki
                         c
                     }
                 };
-                Arc::new(OPWKinematics::new_with_constraints(p, c))
+                OPWKinematics::new_with_constraints(p, c)
             }
-            None => Arc::new(OPWKinematics::new(p)),
+            None => OPWKinematics::new(p),
         }
 }
 
@@ -90,12 +94,26 @@ impl Robot {
     /// with another transform / coupling, let it answer the coming query once, then assign the real value to its
     /// field in place (same object, same address).
     pub fn reseat(&mut self, pose: &Pose, prev: &Joints, j6: f64, q: &Joints, r: &mut StdRng) {
-        let Some(first) = self.layers.first().cloned() else { return };
-        let inner = wrap(&self.layers[1..], leaf_for(self.p, &self.limits));
         let seed = |k: &dyn Kinematics| {
             for entry in ["inverse", "inverse_continuing", "inverse_5dof", "inverse_continuing_5dof"] { let _ = call(k, entry, pose, prev, j6); }
             let _ = guarded(|| (k.forward(q), k.forward_with_joint_poses(q)));
         };
+        let Some(first) = self.layers.first().cloned() else {
+            // a bare solver: another configuration (other limits or none, or a description a fraction of a millimetre
+            // off) answers the query, then the real configuration is assigned to the same object
+            let other_limits = match &self.limits {
+                Some(_) if r.gen_bool(0.5) => None,
+                _ => Some((std::array::from_fn(|i| q[i] - r.gen_range(0.2..2.5)), std::array::from_fn(|i| q[i] + r.gen_range(0.2..2.5)), [0.0, 1.0, 0.5][r.gen_range(0..3)])),
+            };
+            let mut other_p = self.p;
+            if r.gen_bool(0.5) { other_p.c2 += 0.4e-3; other_p.a2 -= 0.3e-3; }
+            let mut a = Arc::new(leaf_val(other_p, &other_limits));
+            seed(a.as_ref());
+            *Arc::get_mut(&mut a).unwrap() = leaf_val(self.p, &self.limits);
+            self.kin = a;
+            return;
+        };
+        let inner = wrap(&self.layers[1..], leaf_for(self.p, &self.limits));
         let other = random_iso(r, 0.3).to_na();
         self.kin = match first {
             LayerF::Tool(i) => { let mut a = Arc::new(Tool { robot: inner, tool: other }); seed(a.as_ref()); Arc::get_mut(&mut a).unwrap().tool = i.to_na(); a }
@@ -321,6 +339,23 @@ fn limits_for(class: &str, q: &Joints, w: f64, r: &mut StdRng) -> Option<(Joints
 }
 
 pub fn call(k: &dyn Kinematics, entry: &str, pose: &Pose, prev: &Joints, j6: f64) -> Option<Solutions> {
+    // (a pose has at most eight solution branches; a list of thousands of answers is kept to its first entries, which
+    //  are judged like any others, and the recording stops after the current event - lists that grow from call to
+    //  call would otherwise exhaust time and memory before anything is judged)
+    let mut r = call_raw(k, entry, pose, prev, j6);
+    if let Some(a) = &mut r {
+        if a.len() > 4096 {
+            if std::env::var("VERIF_LOUD").is_ok() { eprintln!("call {} returned {} answers", entry, a.len()); }
+            FLOOD.store(true, std::sync::atomic::Ordering::Relaxed);
+            a.truncate(64);
+        }
+    }
+    r
+}
+pub static NO_HUGE: std::sync::atomic::AtomicBool = std::sync::atomic::AtomicBool::new(false);
+pub static FLOOD: std::sync::atomic::AtomicBool = std::sync::atomic::AtomicBool::new(false);
+
+fn call_raw(k: &dyn Kinematics, entry: &str, pose: &Pose, prev: &Joints, j6: f64) -> Option<Solutions> {
     guarded(|| match entry {
         "inverse" => k.inverse(pose),
         "inverse_continuing" => k.inverse_continuing(pose, prev),
@@ -387,8 +422,17 @@ pub fn make_params(sc: &Value, r: &mut StdRng) -> Parameters {
 /// One scenario instance -> one "ik" event.
 pub fn instance(sc: &Value, r: &mut StdRng) -> Value {
     let p = make_params(sc, r);
-    instance_p(sc, p, None, r).0
+    // two single calls in three are made from inside a worker pool of 1 .. 13 threads (an answer does not depend on how
+    // many workers the caller's pool has), the others - like all calls of a family - on the recording thread itself
+    let n = SINGLES.fetch_add(1, std::sync::atomic::Ordering::Relaxed);
+    POOL.store([0, 1 + (n / 3) % 13, 1 + (n / 3 * 7 + 5) % 13][n % 3], std::sync::atomic::Ordering::Relaxed);
+    let ev = instance_p(sc, p, None, r).0;
+    POOL.store(0, std::sync::atomic::Ordering::Relaxed);
+    ev
 }
+thread_local! { static LAST_FWD_Q: std::cell::Cell<Joints> = std::cell::Cell::new([0.0; 6]); }
+static SINGLES: std::sync::atomic::AtomicUsize = std::sync::atomic::AtomicUsize::new(0);
+static POOL: std::sync::atomic::AtomicUsize = std::sync::atomic::AtomicUsize::new(0);
 
 /// A family of calls on one thread: robot A, a sibling B that shares part of A's description (same effective
 /// angles, hence the same pose when the geometry is shared), then A again, exactly as the first time.
@@ -404,7 +448,14 @@ pub fn family(sc: &Value, r: &mut StdRng) -> Vec<Value> {
     a["member"] = json!("first");
     b["member"] = json!("sibling");
     a2["member"] = json!("again");
-    vec![a, b, a2]
+    // the same robot with other limits (none instead of some, wide ones instead of none), asked the same pose right
+    // after: what a limited solver answered says nothing about what an unlimited one has to answer
+    let mut sc3 = sc.clone();
+    sc3["limits"] = if sc["limits"] == "none" { json!("wide") } else { json!("none") };
+    let (mut a3, _) = instance_p(&sc3, p, None, &mut r0.clone());
+    a3["member"] = json!("relimited");
+    a3["limits_class"] = sc3["limits"].clone();
+    vec![a, b, a2, a3]
 }
 
 /// What a sibling takes over from the first robot of a family.
@@ -532,13 +583,26 @@ pub fn instance_p(sc: &Value, p: Parameters, shared: Option<&Shared>, r: &mut St
     // far beyond any sensible range (soundness only): whole turns of the order of 1e9..1e10 rad
     // (not at wrist-singular poses: the library brings the J4 + J6 sum into range by repeated subtraction there, which
     //  takes 1e9 iterations - slow, not wrong)
-    let prev: Joints = if prev_class == "far" && r.gen_bool(0.12) && !matches!(pose_class, "j5-zero" | "j5-pi" | "j5-tiny") {
+    // (the class is switched off for the rest of the run by the first such call that takes more than half a second:
+    //  range reduction by repeated subtraction is slow, not wrong, and would stall the recording)
+    let prev: Joints = if prev_class == "far" && r.gen_bool(0.12) && !matches!(pose_class, "j5-zero" | "j5-pi" | "j5-tiny") && !NO_HUGE.load(std::sync::atomic::Ordering::Relaxed) {
         prev_in_range = false;
         std::array::from_fn(|i| q[i] + (r.gen_range(1.0e8..2.0e9f64)).round() * 2.0 * PI * if r.gen_bool(0.5) { 1.0 } else { -1.0 })
     } else { prev };
     let mut j6 = if r.gen_bool(0.5) { q[5] } else { r.gen_range(-3.0..3.0) };
     let mut prev = prev;
     let mut realised = realised;
+    // one "near" previous in five is where the robot stands after re-orienting the tool in place: a solution (the
+    // unlimited twin's) of a pose with the same tool point and another orientation
+    if prev_class == "near" && pose_ok && matches!(pose_class, "generic" | "near-j1-axis") && r.gen_bool(0.2) {
+        let turn = Iso { r: oracle::mat_mul(&oracle::rot('x', r.gen_range(-0.4..0.4)), &oracle::rot('y', r.gen_range(-0.4..0.4))), t: [0.0; 3] };
+        let mut elsewhere = Iso { r: oracle::mat_mul(&want.r, &turn.r), t: want.t };
+        elsewhere.t = want.t;
+        if let Some(a) = call(robot.free.as_ref(), "inverse_continuing", &elsewhere.to_na(), &q, 0.0).and_then(|a| a.first().copied()) {
+            prev = a;
+            realised = false;
+        }
+    }
     if !seam.is_empty() && !pgram && prev_class != "centered" && prev.iter().all(|x| x.abs() < 100.0) {
         for &j in &seam { prev[j] = 0.0; }
         realised = false;
@@ -565,7 +629,31 @@ pub fn instance_p(sc: &Value, p: Parameters, shared: Option<&Shared>, r: &mut St
     }
     // calls
     if std::env::var("VERIF_TRACE_CALLS").is_ok() { eprintln!("call sc={} {} {} prev={:?} j6={} params={}", sc["id"], entry, pose_class, prev, j6, robots::params_json(&p)); }
-    let ans = call(robot.kin.as_ref(), entry, &pose, &prev, j6);
+    // (three calls in ten are the second of two identical calls of the same object, one right after the other)
+    let twice = r.gen_bool(0.3);
+    let is_huge = prev.iter().any(|x| x.is_finite() && x.abs() > 1.0e6);
+    let ans = if is_huge {
+        // a call with a previous vector of the order of 1e9 turns is made on a thread of its own and given up after two
+        // seconds (the event is then recorded as abandoned and not judged)
+        let (tx, rx) = std::sync::mpsc::channel();
+        let (k, entry_s) = (robot.kin.clone(), entry.to_string());
+        let started = std::time::Instant::now();
+        std::thread::spawn(move || { let _ = tx.send(call(k.as_ref(), &entry_s, &pose, &prev, j6)); });
+        let got = rx.recv_timeout(std::time::Duration::from_secs(2));
+        if started.elapsed().as_millis() > 500 { NO_HUGE.store(true, std::sync::atomic::Ordering::Relaxed); }
+        match got {
+            Ok(a) => a,
+            Err(_) => {
+                let mut ev = json!({"ev": "ik", "member": "single", "key": "", "sc": sc["id"], "entry": entry, "dof": dof, "geom": sc["geom"], "stack": sc["stack"], "pose_class": pose_class,
+                    "limits_class": sc["limits"], "prev_class": prev_class, "signs": sc["signs"], "offsets": sc["offsets"], "outcome": "abandoned"});
+                ev["params"] = robots::params_json(&p);
+                return (ev, Shared { p, e, layers: robot.layers.clone(), want: own_want });
+            }
+        }
+    } else {
+        let k = robot.kin.clone();
+        in_pool(POOL.load(std::sync::atomic::Ordering::Relaxed), move || { if twice { let _ = call(k.as_ref(), entry, &pose, &prev, j6); } call(k.as_ref(), entry, &pose, &prev, j6) })
+    };
     // identity of the call: robot description, wrapper stack, limits and every argument, bit for bit
     let key = {
         use std::hash::{Hash, Hasher};
@@ -582,6 +670,11 @@ pub fn instance_p(sc: &Value, p: Parameters, shared: Option<&Shared>, r: &mut St
         ev.insert("params".into(), robots::params_json(&p));
         return (Value::Object(ev), Shared { p, e, layers: robot.layers.clone(), want: own_want });
     };
+    // (a pose has at most eight solution branches: of a list that has grown beyond sixteen entries the first sixteen
+    //  are judged, and its length is recorded)
+    let n_answers = ans.len();
+    let ans: Solutions = ans.into_iter().take(16).collect();
+    ev.insert("n_answers".into(), json!(n_answers));
     let centered = prev_class == "centered";
     let caller_j6 = if entry == "inverse_5dof" { j6 } else if entry == "inverse" || centered { 0.0 } else { prev[5] };
     let j6_equal: Vec<bool> = if five && !nonfinite_j6 {
@@ -589,12 +682,15 @@ pub fn instance_p(sc: &Value, p: Parameters, shared: Option<&Shared>, r: &mut St
             (centered && { let d = (a[5] - caller_j6).rem_euclid(2.0 * PI); d.min(2.0 * PI - d) < 1e-12 })).collect()
     } else { vec![] };
     let mut rep_prad = 0i64;
-    let plain: Vec<Vec<i64>> = if entry.contains("continuing") {
+    // (neither the plain nor the unlimited counterpart is asked for when previous is of the order of 1e9 turns: no
+    //  clause that uses them speaks about such calls)
+    let plain: Vec<Vec<i64>> = if entry.contains("continuing") && !is_huge {
         // (5-DOF: the plain counterpart of a continuation call is the 5-DOF solve with the same J6 = previous J6;
         //  a robot declared 5-DOF answers plain `inverse` with J6 = 0, which the limits may treat differently)
         // (the sentinel stands for "J6 = 0" on the 5-DOF paths: the literal value, not whatever the constant holds)
         let pl = if five { call(robot.kin.as_ref(), "inverse_5dof", &pose, &prev, if centered { 0.0 } else { prev[5] }) } else { call(robot.kin.as_ref(), "inverse", &pose, &prev, j6) };
-        let pl = pl.unwrap_or_default();
+        let mut pl = pl.unwrap_or_default();
+        pl.truncate(16);
         // every answer that is (to 1e-5 rad, modulo whole turns) a plain solution: how far it is from being that
         // solution shifted by whole turns exactly, in 1e-12 rad
         rep_prad = rep_dev(&ans, &pl, if five { 5 } else { 6 });
@@ -602,9 +698,9 @@ pub fn instance_p(sc: &Value, p: Parameters, shared: Option<&Shared>, r: &mut St
     } else { vec![] };
     // "the same query without limits": the sentinel means "relative to the constraint centres", which the
     // twin without limits does not know, so it is given the centres explicitly
-    let free: Vec<Vec<i64>> = if robot.limits.is_some() {
+    let free: Vec<Vec<i64>> = if robot.limits.is_some() && !is_huge {
         let prev_free = if centered { let mut c = centres(&robot); if five_entry || dof == 5 { c[5] = 0.0; } c } else { prev };
-        call(robot.free.as_ref(), entry, &pose, &prev_free, j6).unwrap_or_default().iter().map(au6).collect()
+        call(robot.free.as_ref(), entry, &pose, &prev_free, j6).unwrap_or_default().iter().take(16).map(au6).collect()
     } else { vec![] };
     let known = pose_ok && pose_class != "unreachable" && pose_class != "barely-out";
     let resolve: Vec<usize> = if entry == "inverse" && dof == 6 && robot.limits.is_none() && known && nonsingular(&m) {
@@ -633,25 +729,34 @@ pub fn instance_p(sc: &Value, p: Parameters, shared: Option<&Shared>, r: &mut St
     ev.insert("free".into(), json!(free));
     ev.insert("resolve".into(), json!(resolve));
     // the wrapper stack's own forward kinematics and link poses at the truth configuration against the model
-    let fwd_n = match guarded(|| (robot.kin.forward(&q), robot.kin.forward_with_joint_poses(&q))) {
-        Some((f, links)) => {
-            let fi = Iso::from_na(&f);
-            let w = robot.ofk(&q);
-            let mut e = fi.dpos(&w).max(fi.drot(&w));
-            // link poses: bases in front, the (de-coupled) chain behind; tools do not move links, frames move the last one
-            let chain = oracle::chain(&robot.p, &robot.leaf_joints(&q));
-            let mut base = Iso::identity();
-            for l in robot.layers.iter().rev() { if let LayerF::Base(b) = l { base = b.mul(&base); } }
-            let has_frame = robot.layers.iter().any(|l| matches!(l, LayerF::Frame(_)));
-            for i in 0..(if has_frame { 5 } else { 6 }) {
-                let li = Iso::from_na(&links[i]);
-                let wi = base.mul(&chain[i]);
-                e = e.max(li.dpos(&wi)).max(li.drot(&wi));
+    // (asked twice: first at the joint vector at which the preceding robot of this thread was asked last, then at this
+    //  robot's own - what a stack reports for a joint vector is its own, whoever was asked about that vector before)
+    let q_before = LAST_FWD_Q.with(|c| c.get());
+    LAST_FWD_Q.with(|c| c.set(q));
+    let mut fwd_n = 0i64;
+    for qq in [q_before, q] {
+        if !qq.iter().all(|x| x.is_finite()) { continue; }
+        let one = match guarded(|| (robot.kin.forward(&qq), robot.kin.forward_with_joint_poses(&qq))) {
+            Some((f, links)) => {
+                let fi = Iso::from_na(&f);
+                let w = robot.ofk(&qq);
+                let mut e = fi.dpos(&w).max(fi.drot(&w));
+                // link poses: bases in front, the (de-coupled) chain behind; tools do not move links, frames move the last one
+                let chain = oracle::chain(&robot.p, &robot.leaf_joints(&qq));
+                let mut base = Iso::identity();
+                for l in robot.layers.iter().rev() { if let LayerF::Base(b) = l { base = b.mul(&base); } }
+                let has_frame = robot.layers.iter().any(|l| matches!(l, LayerF::Frame(_)));
+                for i in 0..(if has_frame { 5 } else { 6 }) {
+                    let li = Iso::from_na(&links[i]);
+                    let wi = base.mul(&chain[i]);
+                    e = e.max(li.dpos(&wi)).max(li.drot(&wi));
+                }
+                nano(e)
             }
-            nano(e)
-        }
-        None => 2_000_000_000,
-    };
+            None => 2_000_000_000,
+        };
+        fwd_n = fwd_n.max(one);
+    }
     ev.insert("fwd_n".into(), json!(fwd_n));
     ev.insert("truth".into(), json!({"known": known, "q": au6(&q), "nonsingular": nonsingular(&m), "wrist_ok": m.wrist > 0.01, "realised_by_prev": realised}));
     ev.insert("params".into(), robots::params_json(&p));
@@ -715,9 +820,10 @@ pub fn record(scenarios: &str, output: &str) {
     let mut out = Out::create(output);
     let k = std::env::var("VERIF_INSTANCES").ok().and_then(|s| s.parse().ok()).unwrap_or(if thorough() { 12 } else { 3 });
     let focus = std::env::var("VERIF_FOCUS").unwrap_or_default();
-    for sc0 in &scs {
+    'scenarios: for sc0 in &scs {
         let id = sc0["id"].as_u64().unwrap();
         for i in 0..k {
+            if FLOOD.load(std::sync::atomic::Ordering::Relaxed) { break 'scenarios; }
             // the dimensions that Gen_Scenarios spreads over the core product by strides (geometry class, sign pattern,
             // offset class, weight, wrapper stack) are rotated further from instance to instance, so that every core
             // scenario meets every geometry class within nine instances
@@ -780,7 +886,7 @@ pub fn record_follow(output: &str) {
             let ans = call(robot.kin.as_ref(), "inverse_continuing", &want.to_na(), &prev, 0.0);
             let mut ev = json!({"ev": "follow", "k": k + 1, "entry": "inverse_continuing", "dof": 6, "geom": class, "stack": stack_class,
                 "pose_ok": true, "reach": "yes", "pgram": false, "j6_finite": true, "huge": false, "prev": au6(&prev), "prev_in_range": true, "j6_equal": [], "w16": 0, "centres": [0,0,0,0,0,0],
-                "lim": false, "from": [0,0,0,0,0,0], "to": [0,0,0,0,0,0], "plain": [], "rep_prad": 0, "free": [], "resolve": [], "twin_shift5": 0, "fwd_n": 0, "lim_reported": true, "reseated": false, "truth5_in_limits": true, "member": "single", "key": "",
+                "lim": false, "from": [0,0,0,0,0,0], "to": [0,0,0,0,0,0], "plain": [], "rep_prad": 0, "n_answers": 0, "free": [], "resolve": [], "twin_shift5": 0, "fwd_n": 0, "lim_reported": true, "reseated": false, "truth5_in_limits": true, "member": "single", "key": "",
                 "truth": {"known": true, "q": au6(q), "nonsingular": true, "wrist_ok": true, "realised_by_prev": false}});
             match ans {
                 None => { ev["outcome"] = json!("panic"); ev["answers"] = json!([]); out.put(ev); break; }
